@@ -63,6 +63,30 @@ func randRichValidCfg(rng *rand.Rand) *CfgSpec {
 	if rng.IntN(4) == 0 {
 		c.MaxAge = choose(rng, []int{-1, 0})
 	}
+	// occasionally long lists (binary searches and sorted insertions beyond a handful of elements)
+	if rng.IntN(8) == 0 {
+		n := 9 + rng.IntN(24)
+		for i := 0; i < n; i++ {
+			name := "x-many-" + string(rune('a'+rng.IntN(26))) + string(rune('a'+rng.IntN(26)))
+			if rng.IntN(3) == 0 {
+				name = asciiUpper(name[:3]) + name[3:]
+			}
+			insertAt(rng, &c.ReqHdrs, hv(name))
+		}
+	}
+	if rng.IntN(8) == 0 {
+		n := 9 + rng.IntN(16)
+		for i := 0; i < n; i++ {
+			m := "M" + string(rune('A'+rng.IntN(26))) + string(rune('a'+rng.IntN(26)))
+			insertAt(rng, &c.Methods, MAtom{m, mValid, m})
+		}
+	}
+	if rng.IntN(10) == 0 {
+		n := 9 + rng.IntN(16)
+		for i := 0; i < n; i++ {
+			insertAt(rng, &c.RespHdrs, hv("X-Exp-"+string(rune('a'+rng.IntN(26)))+string(rune('a'+rng.IntN(26)))))
+		}
+	}
 	return c
 }
 
